@@ -391,8 +391,8 @@ def selftest(eng):
         r3 = ctx.run("verify", [root], now=sub.NOW0 + 2)
         outs.append((sub.readback(root), r1.exit, r2.exit, r3.exit, r3.out.replace(base, "")))
         sub.rm(base)
-    if outs[0] != outs[1] or outs[0][1:4] != (0, 0, 0):
-        raise HarnessError("nondeterminism not captured (self-test trees differ or baseline commands failed): "
+    if outs[0] != outs[1]:   # only determinism is demanded here; wrong results are the oracles' business
+        raise HarnessError("nondeterminism not captured (two identical runs gave different trees/results): "
                            + repr([o[1:] for o in outs]))
 
 
